@@ -300,6 +300,41 @@ def check_owned(case):
                             "system '%s' state %r: waiting times x a0 are not the Exp(1) quantiles of the supplied draws "
                             "(got %.12g where %.12g is expected; a0=%.6g)" % (case["name"], x, a, b, a0)))
                 break
+    if not out and a0 > 0 and B >= 2:
+        # Joint law: the waiting time and the event of one step are independent.  With two DIFFERENT supplied
+        # draws (u1, u2) on a K x K grid the waiting time must be a function of one of them and the event of the
+        # other one (which is which is the engine's business).
+        K = 6
+        ev, wt = {}, {}
+        for i in range(K):
+            for j in range(K):
+                pr.clear()
+                e = pr.engine("gillespie")
+                e.setup(script)
+                pr.push([(i + 0.5) / K, (j + 0.37) / K])
+                e.iterate()
+                ev[(i, j)] = cme.diff_key(x, pr.state(n))
+                wt[(i, j)] = pr.time()
+                e.finalize()
+                stats["transitions"] += 1
+
+        def const_along(tab, axis, num):
+            # True when tab does not change while the coordinate `axis` varies
+            for a in range(K):
+                vals = [tab[(a, b)] if axis == 1 else tab[(b, a)] for b in range(K)]
+                for v in vals[1:]:
+                    if (abs(v - vals[0]) > 1e-12 * abs(vals[0])) if num else (v != vals[0]):
+                        return False
+            return True
+        w_free_of = [const_along(wt, 0, True), const_along(wt, 1, True)]      # waiting time independent of draw 1 / draw 2
+        e_free_of = [const_along(ev, 0, False), const_along(ev, 1, False)]
+        if len(set(ev.values())) >= 2:
+            ok = (w_free_of[0] and e_free_of[1] and not w_free_of[1]) or (w_free_of[1] and e_free_of[0] and not w_free_of[0])
+            if not ok:
+                out.append(("C07:owned:waiting-time-and-event-not-independent",
+                            "system '%s' state %r: over a %dx%d grid of two different supplied draws the waiting time is free of "
+                            "draw 1/2: %r, the event is free of draw 1/2: %r (one of them must depend on the first draw only and "
+                            "the other one on the second draw only)" % (case["name"], x, K, K, w_free_of, e_free_of)))
     return out, stats
 
 
@@ -386,6 +421,17 @@ def tl_systems():
                   "reactions": [R([("A", 1)], [("B", 1)], 0.2, 0.1)], "envs": [""],
                   "space": {"type": "grid", "w": 3, "h": 1, "d": 1, "vol": 1.0, "bc": {"x": "periodical", "y": "periodical", "z": "periodical"}},
                   "state": [40.0, 25.0, 31.0, 18.0, 22.0, 9.0]}},
+        # per-step means of 100 and above (large populations): still Poisson by the statement
+        {"name": "large means: chemostated source A -> B, 3x1x1 grid, means 100-300 per step at dt = 1/16",
+         "spec": {"species": [{"label": "A", "D": 0.0}, {"label": "B", "D": 0.0}],
+                  "reactions": [R([("A", 1)], [("B", 1)], 1.6, 0.0)], "envs": [""],
+                  "space": {"type": "grid", "w": 3, "h": 1, "d": 1, "vol": 1.0},
+                  "state": [1000.0, 2000.0, 3000.0, 0.0, 0.0, 0.0], "chemostats": [1, 1, 1, 0, 0, 0]}},
+        {"name": "large means: chemostated source A -> B and diffusion of B, 2-node graph, means 100-400 per step at dt = 1/16",
+         "spec": {"species": [{"label": "A", "D": 0.0}, {"label": "B", "D": 1.0}],
+                  "reactions": [R([("A", 1)], [("B", 1)], 1.6, 0.0)], "envs": [""],
+                  "space": {"type": "graph", "nodes": [{"vol": 1.0, "env": 0}, {"vol": 2.0, "env": 0}], "edges": [[0, 1, 1.0, 1.0]]},
+                  "state": [1000.0, 4000.0, 5000.0, 0.0], "chemostats": [1, 1, 0, 0]}},
         {"name": "3A->B single cell",
          "spec": {"species": [{"label": "A"}, {"label": "B"}], "reactions": [R([("A", 3)], [("B", 1)], 0.001, 0.5)], "envs": [""],
                   "space": {"type": "grid", "w": 1, "h": 1, "d": 1, "vol": 0.5}, "state": [40.0, 5.0]}},
